@@ -13,7 +13,7 @@ for p in props:
           "quick_cmd":f"./check {p} quick",
           "thorough_cmd":f"./check {p} thorough",
           "evidence_file":f"/verif/evidence/{p}.json",
-          "replay_cmd_template":"cat {path}",
+          "replay_cmd_template":"python3 tools/replay.py {path}",
           "engine":"govc",
           "level_claimed":{"category":c.get("category","proof"),"text":c["text"],"design_ref":c.get("design_ref","DESIGN.md §3 "+p)},
           "level_note":c["note"],
